@@ -1,10 +1,10 @@
 package scen
 
 import (
-	"net"
 	"bytes"
 	"errors"
 	"fmt"
+	"net"
 	"reflect"
 	"sort"
 	"strings"
@@ -88,6 +88,11 @@ type wireOp struct {
 	// inexpressible: the request asks for something the negotiated version cannot carry (a
 	// custom payload before protocol 4); it must fail on the client, nothing of it is sent
 	inexpressible bool
+	// batchBind: the entries of the batch are added with Batch.Bind (values come from a
+	// binding callback); batchBindNamed: the callback returns named values, which a BATCH
+	// cannot carry (protocol 3+): the request must be refused, nothing may be sent
+	batchBind      bool
+	batchBindNamed bool
 	// rebind: the same *Query is executed first with binds0, then given the real values with
 	// Query.Bind and executed again; the second EXECUTE must carry the new values
 	rebind     bool
@@ -583,6 +588,31 @@ func wireGenOp(k *kernel.Kernel, token string, proto int) *wireOp {
 			en.stmt = fmt.Sprintf("INSERT INTO ks.t /*%s e%d*/ VALUES (%s)", token, i, strings.Join(ph, ","))
 			op.entries = append(op.entries, en)
 		}
+		allBound := true
+		for _, en := range op.entries {
+			if len(en.binds) == 0 {
+				allBound = false // (an entry without values is a simple statement, never prepared)
+			}
+		}
+		if allBound && tp.Chance(1, 3) {
+			op.batchBind = true
+			k.Fault("req.batch-values-from-binding-callback")
+			if proto >= 3 && tp.Chance(1, 3) {
+				// names given in another order than the markers
+				for i := range op.entries {
+					if len(op.entries[i].binds) >= 1 {
+						op.batchBindNamed = true
+						for j := range op.entries[i].binds {
+							op.entries[i].binds[j].name = fmt.Sprintf("c%d", len(op.entries[i].binds)-1-j)
+						}
+					}
+				}
+				if op.batchBindNamed {
+					op.inexpressible = true
+					k.Fault("req.batch-named-values-from-binding-callback")
+				}
+			}
+		}
 	}
 	if op.kind != "batch" {
 		switch tp.Weighted([]int{5, 1, 1, 1}) {
@@ -949,7 +979,14 @@ func wireRunOp(k *kernel.Kernel, sess *gocql.Session, op *wireOp, proto int, tra
 					refused = true
 				}
 			}()
-			if op.kind == "batch" {
+			if op.kind == "batch" && op.batchBindNamed {
+				b := sess.NewBatch(op.batchType)
+				for _, en := range op.entries {
+					args := bindArgs(en.binds)
+					b.Bind(en.stmt, func(*gocql.QueryInfo) ([]interface{}, error) { return args, nil })
+				}
+				err = sess.ExecuteBatch(b)
+			} else if op.kind == "batch" {
 				b := sess.NewBatch(op.batchType)
 				for _, en := range op.entries {
 					b.Query(en.stmt, bindArgs(en.binds)...)
@@ -961,7 +998,11 @@ func wireRunOp(k *kernel.Kernel, sess *gocql.Session, op *wireOp, proto int, tra
 			}
 		}()
 		if !refused && err == nil {
-			k.Violate("C03", "C03/inexpressible-request-accepted", "%s asked for a custom payload on protocol %d and the call reported success", op.token, proto)
+			what := "a custom payload"
+			if op.batchBindNamed {
+				what = "named values in a batch (from a binding callback)"
+			}
+			k.Violate("C03", "C03/inexpressible-request-accepted", "%s asked for %s on protocol %d and the call reported success", op.token, what, proto)
 		}
 		k.Rec("ret %s inexpressible refused=%v err=%s", op.token, refused, ErrClass(err))
 		return
@@ -971,7 +1012,12 @@ func wireRunOp(k *kernel.Kernel, sess *gocql.Session, op *wireOp, proto int, tra
 		b := sess.NewBatch(op.batchType)
 		b.Cons = op.cons
 		for _, en := range op.entries {
-			b.Query(en.stmt, bindArgs(en.binds)...)
+			if op.batchBind {
+				args := bindArgs(en.binds)
+				b.Bind(en.stmt, func(*gocql.QueryInfo) ([]interface{}, error) { return args, nil })
+			} else {
+				b.Query(en.stmt, bindArgs(en.binds)...)
+			}
 		}
 		if op.serial != 0 {
 			b.SerialConsistency(op.serial)
